@@ -46,6 +46,12 @@ finally:
     sh("git -C /repo worktree remove --force %s" % wt)
 meta["confirmed"] = bool(clean_ok and applied and suite_ok and demo_fails)
 detected = {}
+# the checks rewrite evidence/<id>.json on every run: keep the clean-tree evidence
+saved = {}
+for c in checks:
+    ev = "/verif/evidence/%s.json" % c
+    if os.path.exists(ev):
+        saved[c] = open(ev).read()
 r = sh("git -C /repo apply %s" % diff)
 try:
     for c in checks:
@@ -54,6 +60,8 @@ try:
         detected[c] = {"exit": r.returncode, "violation_lines": lines[:3], "summary": r.stdout.strip().split("\n")[-1][:300]}
 finally:
     sh("git -C /repo checkout -- .")
+    for c, text in saved.items():
+        open("/verif/evidence/%s.json" % c, "w").write(text)
 meta["checks_run_against_it"] = detected
 meta["caught_by"] = [c for c, d in detected.items() if d["exit"] == 1 and d["violation_lines"]]
 shutil.copy(diff, os.path.join(dest, "patch.diff"))
